@@ -414,7 +414,98 @@ func genTxn(r *prng.R) string {
 	if len(ex) == 0 {
 		ex = []string{note("req", prng.Pick(r, reqCursors))}
 	}
-	return txnLine(ex, reqDoc, respDoc)
+	return txnLine(ex, reqDoc, respDoc) + genTransfer(r, reqDoc != "", respDoc != "")
+}
+
+// sizes around the round limits a body may cross: 64 KiB, 1 MiB, 4 MiB (exactly on, just below, just above)
+var bigPads = []int{1<<16 - 64, 1 << 16, 1<<16 + 1, 1<<20 - 64, 1 << 20, 1<<20 + 1, 4<<20 - 64, 4 << 20, 4<<20 + 1}
+
+// genTransfer: how the bodies travel — gzip content encoding (25 % per body) and leading JSON whitespace that
+// makes the body big without changing the document (small pads often, pads around the round limits rarely).
+func genTransfer(r *prng.R, reqOK, respOK bool) string {
+	var b strings.Builder
+	one := func(name string, ok bool) {
+		if !ok {
+			return
+		}
+		if r.Chance(25) {
+			fmt.Fprintf(&b, " gz%s=1", name)
+		}
+		switch x := r.Intn(1000); {
+		case x < 12:
+			fmt.Fprintf(&b, " pad%s=%d", name, prng.Pick(r, bigPads))
+		case x < 100:
+			fmt.Fprintf(&b, " pad%s=%d", name, r.Range(1, 300))
+		}
+	}
+	one("req", reqOK)
+	one("resp", respOK)
+	return b.String()
+}
+
+// longArray: a document of 70-140 KB of real content (no padding): thousands of small numbers / strings.
+func longArray(r *prng.R) string {
+	var b strings.Builder
+	b.WriteString(`{"id":"big","items":[`)
+	n := r.Range(9000, 16000)
+	for i := 0; i < n; i++ {
+		if i > 0 {
+			b.WriteByte(',')
+		}
+		if i%7 == 0 {
+			fmt.Fprintf(&b, `"s%d"`, i)
+		} else {
+			fmt.Fprintf(&b, "%d.5", i%1000)
+		}
+	}
+	b.WriteString(`],"name":"tail"}`)
+	return b.String()
+}
+
+// genPol: one transaction in policy mode with 1..4 HAR-exporter diagnoses (endpoint / global, enabled or not,
+// obfuscation on or off, each with its own body exclusion paths; disabled and lax ones listed first as often
+// as last).
+func genPol(r *prng.R) string {
+	g := &gctx{r: r}
+	reqV := g.val(r.Range(1, 3), "", false)
+	reqCursors := g.cursors
+	respV := g.sameShape(reqV)
+	respCursors := reqCursors
+	if r.Chance(40) {
+		g2 := &gctx{r: r}
+		respV = g2.val(r.Range(1, 3), "", false)
+		respCursors = g2.cursors
+	}
+	reqDoc, respDoc := text(r, reqV, false), text(r, respV, false)
+	switch r.Intn(40) {
+	case 0:
+		reqDoc = prng.Pick(r, malformed)
+	case 1:
+		respDoc = prng.Pick(r, malformed)
+	case 2:
+		respDoc = longArray(r)
+		respCursors = []string{"", ".id", ".items", ".items[]", ".name"}
+	}
+	n := r.Range(1, 4)
+	var b strings.Builder
+	fmt.Fprintf(&b, "pol n=%d", n)
+	for i := 0; i < n; i++ {
+		scope := "g"
+		if r.Chance(30) {
+			scope = "e"
+		}
+		en, ob := 0, 0
+		if r.Chance(60) {
+			en = 1
+		}
+		if r.Chance(65) {
+			ob = 1
+		}
+		fmt.Fprintf(&b, " f%d=%s%d%d q%d=%s s%d=%s", i, scope, en, ob,
+			i, proto.Enc(exJSON(genEx(r, "raw", reqCursors))), i, proto.Enc(exJSON(genEx(r, "raw", respCursors))))
+	}
+	fmt.Fprintf(&b, " req=%s resp=%s", proto.Enc(reqDoc), proto.Enc(respDoc))
+	return b.String() + genTransfer(r, true, true)
 }
 
 // genMulti: 2..3 overlapping ObfuscateJSON calls (mostly nested through the hasher, sometimes concurrent on
@@ -487,6 +578,10 @@ func gen(r *prng.R, f proto.Flags, emit func(proto.Case)) {
 		}
 		if rr.Chance(12) {
 			emit(proto.Case{ID: next("o"), Ops: []string{genMulti(rr)}})
+			continue
+		}
+		if rr.Chance(12) {
+			emit(proto.Case{ID: next("p"), Ops: []string{genPol(rr)}})
 			continue
 		}
 		switch {
